@@ -3,4 +3,5 @@ CONSTANT MaxPre = 2
 INVARIANT Inv_Select
 INVARIANT Inv_Interface
 INVARIANT Inv_Sink
+INVARIANT Inv_ArtefactField
 CHECK_DEADLOCK FALSE
